@@ -32,6 +32,10 @@ def fresh_copy():
 
 
 def main():
+    import fcntl
+    os.makedirs(SCRATCH, exist_ok=True)
+    lock = open(os.path.join(SCRATCH, "lock"), "w")
+    fcntl.flock(lock, fcntl.LOCK_EX)  # one self-test at a time per scratch directory
     pat = re.compile(sys.argv[1]) if len(sys.argv) > 1 and not sys.argv[1].startswith("--") else None
     muts = [m for m in load_mutants() if pat is None or pat.search(m["id"])]
     ok = bad = 0
